@@ -16,6 +16,7 @@ import (
 
 	"google.golang.org/protobuf/types/known/structpb"
 	"k8s.io/apimachinery/pkg/apis/meta/v1/unstructured"
+	"k8s.io/apimachinery/pkg/runtime"
 	"k8s.io/apimachinery/pkg/runtime/schema"
 
 	fnv1 "github.com/crossplane/crossplane/apis/apiextensions/fn/proto/v1"
@@ -34,11 +35,16 @@ type resSpec struct {
 	Kind       string `json:"kind"`
 	Namespaced bool   `json:"namespaced,omitempty"`
 	Val        string `json:"val,omitempty"`
+	// Version of the composed kind the function asks for ("" = v1); the kind is kept
+	Version string `json:"version,omitempty"`
 }
 
 type phase struct {
 	Desired []resSpec      `json:"desired,omitempty"` // pipeline mode
 	XREdit  map[string]any `json:"xrEdit,omitempty"`  // P&T mode: user edit of XR spec before the phase
+	// P&T mode: the user edits the Composition's templates before the phase (a new revision is
+	// cut and the XR follows it); nil = unchanged
+	Templates []map[string]any `json:"templates,omitempty"`
 	// Unsteady is set by the generator when, in this phase, some template cannot render (a
 	// Required from-XR patch has no source value yet): the composed state then cannot match the
 	// desired state, so the fixed-point clause (I4) does not apply; the phase runs a fixed
@@ -52,18 +58,22 @@ func (s *scenario) markUnsteady() {
 	if s.Mode != "pt" {
 		return
 	}
-	needsParam := false
-	for _, t := range s.Templates {
-		ps, _ := t["patches"].([]any)
-		for _, p := range ps {
-			pm := p.(map[string]any)
-			if pol, ok := pm["policy"].(map[string]any); ok && pol["fromFieldPath"] == "Required" && pm["fromFieldPath"] == "spec.param" {
-				needsParam = true
+	have := false
+	cur := s.Templates
+	for i := range s.Phases {
+		if s.Phases[i].Templates != nil {
+			cur = s.Phases[i].Templates
+		}
+		needsParam := false
+		for _, t := range cur {
+			ps, _ := t["patches"].([]any)
+			for _, p := range ps {
+				pm := p.(map[string]any)
+				if pol, ok := pm["policy"].(map[string]any); ok && pol["fromFieldPath"] == "Required" && pm["fromFieldPath"] == "spec.param" {
+					needsParam = true
+				}
 			}
 		}
-	}
-	have := false
-	for i := range s.Phases {
 		if _, ok := s.Phases[i].XREdit["param"]; ok {
 			have = true
 		}
@@ -109,6 +119,20 @@ func (s *scenario) alwaysDesired() map[string]bool {
 		for _, t := range s.Templates {
 			out[t["name"].(string)] = true
 		}
+		for _, p := range s.Phases {
+			if p.Templates == nil {
+				continue
+			}
+			in := map[string]bool{}
+			for _, t := range p.Templates {
+				in[t["name"].(string)] = true
+			}
+			for n := range out {
+				if !in[n] {
+					delete(out, n)
+				}
+			}
+		}
 		return out
 	}
 	cnt := map[string]int{}
@@ -147,7 +171,15 @@ func baseScenarios() []scenario {
 	nsd := resSpec{Name: "d", Kind: "NsThing", Namespaced: true, Val: "4"}
 	reqPatch := []any{map[string]any{"type": "FromCompositeFieldPath", "fromFieldPath": "spec.param", "toFieldPath": "spec.forProvider.p", "policy": map[string]any{"fromFieldPath": "Required"}}}
 	optPatch := []any{map[string]any{"type": "FromCompositeFieldPath", "fromFieldPath": "spec.size", "toFieldPath": "spec.forProvider.size"}}
+	a2 := a
+	a2.Version = "v2"
+	ta, tb, tc := ptTemplate("a", "NopA", "1", optPatch), ptTemplate("b", "NopA", "2", nil), ptTemplate("c", "NopB", "3", nil)
 	return []scenario{
+		{Name: "pipe-version-flip", Mode: "pipeline", Steps: 1, Phases: []phase{{Desired: []resSpec{a, b}}, {Desired: []resSpec{a2, b}}, {Desired: []resSpec{a, b}}}},
+		{Name: "pt-template-removed", Mode: "pt", Templates: []map[string]any{ta, tb, tc},
+			Phases: []phase{{}, {Templates: []map[string]any{ta, tc}}, {Templates: []map[string]any{ta, tb, tc}}}},
+		{Name: "pt-template-removed-provider", Mode: "pt", Provider: true, Templates: []map[string]any{ta, tb, tc},
+			Phases: []phase{{}, {Templates: []map[string]any{tb}}}},
 		{Name: "pipe-fixed2", Mode: "pipeline", Steps: 1, Phases: []phase{{Desired: []resSpec{a, b}}}},
 		{Name: "pipe-grow", Mode: "pipeline", Steps: 1, Phases: []phase{{Desired: []resSpec{a}}, {Desired: []resSpec{a, b, c}}}},
 		{Name: "pipe-shrink", Mode: "pipeline", Steps: 1, Phases: []phase{{Desired: []resSpec{a, b, c}}, {Desired: []resSpec{a}}}},
@@ -177,7 +209,7 @@ func randomScenario(c *kit.Ctx, i int) scenario {
 			var d []resSpec
 			for _, n := range names {
 				if r.IntN(3) > 0 {
-					d = append(d, resSpec{Name: n, Kind: kindOf[n], Val: fmt.Sprint(r.IntN(3))})
+					d = append(d, resSpec{Name: n, Kind: kindOf[n], Val: fmt.Sprint(r.IntN(3)), Version: []string{"", "", "v2"}[r.IntN(3)]})
 				}
 			}
 			ps = append(ps, phase{Desired: d})
@@ -202,6 +234,17 @@ func randomScenario(c *kit.Ctx, i int) scenario {
 	}
 	if r.IntN(2) == 0 {
 		ps = append(ps, phase{XREdit: map[string]any{"param": "p"}})
+	}
+	if r.IntN(2) == 0 && nt > 1 {
+		// a later phase drops a random template (at least one is kept)
+		drop := r.IntN(nt)
+		var kept []map[string]any
+		for t := range ts {
+			if t != drop {
+				kept = append(kept, ts[t])
+			}
+		}
+		ps = append(ps, phase{Templates: kept})
 	}
 	return scenario{Name: fmt.Sprintf("rand-pt-%d", i), Mode: "pt", Templates: ts, Phases: ps, Provider: r.IntN(2) == 0}
 }
@@ -246,7 +289,11 @@ func (r *runner) install(sc *scenario) {
 				if rs.Namespaced {
 					ns = "team-a"
 				}
-				s, err := structpb.NewStruct(nopObj(rs.Kind, ns, rs.Val))
+				o := nopObj(rs.Kind, ns, rs.Val)
+				if rs.Version != "" {
+					o["apiVersion"] = "nop.ex.org/" + rs.Version
+				}
+				s, err := structpb.NewStruct(o)
 				if err != nil {
 					return nil, err
 				}
@@ -285,6 +332,20 @@ func (r *runner) buildWorld(sc *scenario, seed uint64) (*sim.World, map[string]a
 
 func (r *runner) enterPhase(w *sim.World, sc *scenario, p int) {
 	r.phase.Store(int32(p))
+	if ts := sc.Phases[p].Templates; ts != nil {
+		comp := &unstructured.Unstructured{Object: w.GetObj(sim.Key{Group: "apiextensions.crossplane.io", Kind: "Composition", Name: "comp"})}
+		var rs []any
+		for _, t := range ts {
+			rs = append(rs, runtime.DeepCopyJSONValue(t))
+		}
+		_ = unstructured.SetNestedSlice(comp.Object, rs, "spec", "resources")
+		if err := w.Client("user").Update(nil, comp); err != nil { //nolint:staticcheck // ctx unused
+			panic(fmt.Sprintf("composition edit: %v", err))
+		}
+		if err := xrk.ReconcileComposition(w, "comp"); err != nil {
+			panic(err)
+		}
+	}
 	if ed := sc.Phases[p].XREdit; ed != nil {
 		u := w.Client("user")
 		xr := &unstructured.Unstructured{Object: w.GetObj(xrKey)}
